@@ -335,7 +335,9 @@ prog_t restate(vh::rng_t& rng, const prog_t& B, const long base_id)
         }
         else if (k == 3)
         {
-            const double s = p2(static_cast<int>(rng.range(-6, 6)));
+            // 30 %: a tiny objective (|Q|_F, |c|_2 < 1e-3: the min_norm guard of the solver's normalisation is active and the
+            // divisor differs from the norm)
+            const double s = chance(rng, 30) ? p2(static_cast<int>(rng.range(-24, -9))) : p2(static_cast<int>(rng.range(-6, 6)));
             for (auto& r : P.Q) for (auto& v : r) v *= s;
             for (auto& v : P.c) v *= s;
             for (auto& v : P.us) v *= s;
@@ -389,7 +391,7 @@ prog_t restate(vh::rng_t& rng, const prog_t& B, const long base_id)
     }
     if (what.empty())
     {
-        const double s = p2(static_cast<int>(rng.range(1, 6)));
+        const double s = chance(rng, 30) ? p2(static_cast<int>(rng.range(-24, -9))) : p2(static_cast<int>(rng.range(1, 6)));
         for (auto& r : P.Q) for (auto& v : r) v *= s;
         for (auto& v : P.c) v *= s;
         for (auto& v : P.us) v *= s;
